@@ -103,7 +103,9 @@ func newEnv() (*env, error) {
 		}
 		e.goEnv = append(e.goEnv, kv)
 	}
-	e.goEnv = append(e.goEnv, "GOFLAGS=-mod=mod", "GOPROXY=off", "GOSUMDB=off", "GOTOOLCHAIN=local", "CGO_ENABLED=0")
+	// -trimpath: the scratch modules live under a new temporary directory on every run; without it
+	// every run would add its own copy of every generated package to the build cache
+	e.goEnv = append(e.goEnv, "GOFLAGS=-mod=mod -trimpath", "GOPROXY=off", "GOSUMDB=off", "GOTOOLCHAIN=local", "CGO_ENABLED=0")
 	if out, err := e.run(e.scratch, time.Minute, nil, "go", "env", "GOCACHE"); err == nil {
 		e.goCache = strings.TrimRight(strings.TrimSpace(out), "/")
 	}
